@@ -133,7 +133,7 @@ def run_harness(pid, cfg, work, seed, tier, extra_env=None):
     return ok, outs
 
 
-R_ENTRY = re.compile(r"\((\d+),\s*(true|false),\s*(true|false)\)")
+R_ENTRY = re.compile(r"\(\s*(\d+),\s*(true|false),\s*(true|false)\s*\)")
 
 
 def eval_shard(path, work):
@@ -279,6 +279,11 @@ def main(argv):
     bok, bout = build_coq()
     broken_theorem = None
     pok, theorems, assum, pout = (False, [], {"closed": 0, "axioms": []}, "")
+    if "pre" in cfg and isinstance(cfg["pre"], str):
+        import importlib
+        mod, fn = cfg["pre"].split(":")
+        cfg = dict(cfg)
+        cfg["pre"] = getattr(importlib.import_module(mod), fn)
     if not bok:
         m = re.search(r'File "([^"]+)", line (\d+)', bout)
         broken_theorem = f"coq build failed at {m.group(1)}:{m.group(2)}" if m else "coq build failed"
@@ -306,25 +311,44 @@ def main(argv):
                 harness_fail = (pkg, test, rc, out[-6000:])
                 break
     viol, known_hits, mismatches = classify(pid, res, known)
+    # violations found by generated obligations (C18: a control-flow path / a schedule of the model)
+    gen_viol = []
+    if gen_info:
+        for v in gen_info.get("violations", []):
+            if v["tag"] in known:
+                known_hits.setdefault(v["tag"], v)
+            else:
+                gen_viol.append(v)
 
     for tag, c in sorted(known_hits.items()):
         log(f"KNOWN-FINDING: property={pid} {known[tag]}")
-    if viol:
-        idx, c = viol[0]
-        path = write_replay(pid, tier, seed, "property-fails", {
-            "what": "the property predicate fails on the implementation's observed behaviour for this case",
-            "case_index": idx, "case": c, "other_failing": [x[1]["tag"] for x in viol[1:20]]})
+    if viol or gen_viol:
+        payload = {}
+        if viol:
+            idx, c = viol[0]
+            payload.update({"what": "the property predicate fails on the implementation's observed behaviour for this case",
+                            "case_index": idx, "case": c, "other_failing": [x[1]["tag"] for x in viol[1:20]]})
+        if gen_viol:
+            payload.update({"generated_obligation_failures": gen_viol[:10]})
+            payload.setdefault("what", gen_viol[0]["what"])
+        if harness_fail:
+            payload["harness_output_tail"] = harness_fail[3][-3000:]
+        path = write_replay(pid, tier, seed, "property-fails", payload)
         log(f"VIOLATION property={pid} replay={path}")
-        violations = len(viol)
+        violations = len(viol) + len(gen_viol)
         exit_code = 1
     elif harness_fail:
         # the harness itself failed (panic, hang, build failure of the mutated tree ...)
         pkg, test, rc, out = harness_fail
         m = re.search(r"VERIF-VIOLATION (\S+)(.*)", out)
-        kf = re.findall(r"VERIF-KNOWN (\S+)", out)
+        scheds = re.findall(r"VERIF-SCHEDULE (\S+) (.*)", out)
+        crashed = re.search(r"^(panic: .*|fatal error: .*)$", out, re.M)
+        if not m and scheds and crashed:
+            m = crashed   # the process died while running the last announced schedule: that schedule is the replay
         path = write_replay(pid, tier, seed, "harness-failure", {
             "what": "the correspondence harness failed against the implementation", "pkg": pkg, "test": test,
-            "exit": rc, "output_tail": out})
+            "exit": rc, "failing_schedule": scheds[-1][1] if scheds else None,
+            "crash": crashed.group(1) if crashed else None, "output_tail": out})
         suffix = "" if m else " no-failing-input-found"
         log(f"VIOLATION property={pid} replay={path}{suffix}")
         violations = 1
